@@ -56,7 +56,7 @@ def run(ctx: Ctx) -> int:
         "programs = family D over RekeyTo / CloseRemainderTo / AssetCloseTo / Sender compared (==, !=, both operand orders) with global ZeroAddress, addr literals "
         "(zero and non-zero), global CreatorAddress; address valuations {zero, each literal, creator, a fresh attacker address} are solver values; non-trivial = a set "
         "other than 'any address' was validated on a feasible accepting path",
-        [AddrFields._get_asserted_txn_gtxn, AddrFields._get_asserted_address, AddrFields._union, AddrFields._intersection, AddrFields._set_addr_values, D._get_asserted, D.run_analysis],
+        [lambda: AddrFields._get_asserted_txn_gtxn, lambda: AddrFields._get_asserted_address, lambda: AddrFields._union, lambda: AddrFields._intersection, lambda: AddrFields._set_addr_values, lambda: D._get_asserted, lambda: D.run_analysis],
         {"unroll": 2, "call_depth": 3, "crosshair_timeout_s": 60 if ctx.quick else 150},
         ["the attacker address is distinct from every address the program names; CreatorAddress is a non-zero address distinct from the literals",
          "converse clause read as: a field pinned to named addresses (no unnamed address admitted) on every accepting direct-check path is not 'any address'"],
